@@ -64,10 +64,28 @@ static int create_node(const sqfs_tree_node_t *n, const char *name, int flags)
 
 	switch (n->inode->base.mode & S_IFMT) {
 	case S_IFDIR:
-		if (mkdir(name, 0755) && errno != EEXIST) {
-			fprintf(stderr, "mkdir %s: %s\n",
-				name, strerror(errno));
-			return -1;
+		if (mkdir(name, 0755)) {
+			struct stat sb;
+
+			if (errno != EEXIST) {
+				fprintf(stderr, "mkdir %s: %s\n",
+					name, strerror(errno));
+				return -1;
+			}
+
+			/* what is there already must be a directory, not
+			   a symlink that leads somewhere else */
+			if (lstat(name, &sb) != 0) {
+				fprintf(stderr, "lstat %s: %s\n",
+					name, strerror(errno));
+				return -1;
+			}
+
+			if (!S_ISDIR(sb.st_mode)) {
+				fprintf(stderr, "mkdir %s: %s\n",
+					name, strerror(ENOTDIR));
+				return -1;
+			}
 		}
 		break;
 	case S_IFLNK:
